@@ -99,6 +99,9 @@ MUTANTS = [
  ("M31-cancelled-receive-stores-done-value", "C10", "run.go",
   "\t\t\t\tchosen, v, _ := reflect.Select([]reflect.SelectCase{done, {Dir: reflect.SelectRecv, Chan: ch}})\n\t\t\t\tif chosen == 0 {\n\t\t\t\t\t// Cancelled: v is the zero value of the done channel, which\n\t\t\t\t\t// must not be stored in the destination variable.\n\t\t\t\t\treturn nil\n\t\t\t\t}\n\t\t\t\tgetFrame(f, l).data[i] = v\n", "\t\t\t\tchosen, v, _ := reflect.Select([]reflect.SelectCase{done, {Dir: reflect.SelectRecv, Chan: ch}})\n\t\t\t\tgetFrame(f, l).data[i] = v\n\t\t\t\tif chosen == 0 {\n\t\t\t\t\treturn nil\n\t\t\t\t}\n",
   "the cancellable receive stores the selected value before testing the chosen case (re-introduces the defect repaired by bc0ee3f)"),
+ ("M32-stop-closes-nil-channel", "C09", "interp.go",
+  "\tif interp.done != nil {\n\t\t// (nil: already closed on behalf of a concurrent evaluation, which\n\t\t// shares the channel and has been cancelled too.)\n\t\tclose(interp.done)", "\tif true {\n\t\tclose(interp.done)",
+  "stop() closes the cancellation channel even when a concurrent evaluation's stop() has already closed and dropped it (re-introduces the defect repaired by 61d331f)"),
  ("M29-done-channel-per-evaluation", "C09", "interp.go",
   "\tif interp.done == nil {\n\t\tinterp.done = make(chan struct{})\n\t}\n", "\tinterp.done = make(chan struct{})\n",
   "every WithContext entry point installs a fresh done channel again (re-introduces the defect repaired by ff0a250)"),
